@@ -46,9 +46,9 @@ SPEC = dict(
     level_text="Theorems for every offer list, disabled list, preferred string and credential state: the choice is a permitted "
                "mechanism, the maximum of the permitted ones under the C++ order unless the preferred one is permitted, none iff "
                "nothing is permitted, independent of order/duplicates; rank_matches_spec proves the property's chain on the order "
-               "regenerated from the header on every run; PLAIN never used under the default configuration. Name-on-the-wire "
-               "statement proved for all non-HT mechanisms and, for HT, for canonical offers; refuted in general "
-               "(C05_defect_ht_alias, reproduced on the real managers).",
+               "regenerated from the header on every run; the name that goes on the wire was offered and is not disabled, for every "
+               "mechanism incl. HT (choose_name_offered_enabled; uses the break in SaslHtMechanism::fromString's hash loop, read "
+               "from the source by the translator); PLAIN never used under the default configuration.",
     level_note="Proved about the hand-written model over translator-generated data; model-to-code tie is differential "
                "(exhaustive over the reduced universes, sampled beyond) plus the translator.",
     design_ref="5.5",
